@@ -366,7 +366,7 @@ Proof.
     + (* QNone *)
       destruct ((c =? 9) || (c =? 10)) eqn:E910; [discriminate|].
       apply orb_false_iff in E910 as [E9 E10].
-      unfold sh_blank in H. rewrite E9, E10 in H. rewrite !orb_false_r in H.
+      unfold sh_blank in H. rewrite E9 in H. rewrite !orb_false_r in H.
       destruct (c =? 32) eqn:E32.
       { destruct (shw r QNone) as [b' w' ws'| |] eqn:E; try congruence.
         inversion H; subst.
@@ -453,9 +453,6 @@ Definition differs (cmd : str) : Prop :=
   exists ws, sh_words cmd = ShOk ws /\ collect_args cmd <> Some (filter nonempty ws).
 
 Lemma collect_tab_refuted : differs (lit "gcc" ++ [9] ++ lit "-DX")%string.
-Proof. eexists. split; [vm_compute; reflexivity|vm_compute; discriminate]. Qed.
-
-Lemma collect_newline_refuted : differs (lit "gcc" ++ [10] ++ lit "-DX")%string.
 Proof. eexists. split; [vm_compute; reflexivity|vm_compute; discriminate]. Qed.
 
 (* backslash before an ordinary character outside quotes: POSIX drops it, collectArgs keeps it *)
